@@ -15,6 +15,10 @@ import merge as M
 VERIF = B.VERIF
 EVID = os.path.join(VERIF, "evidence")
 CLAUSE_KW = {"requires", "ensures", "invariant", "invariant_except_break", "decreases", "recommends"}
+try:
+    VERUS_ID = subprocess.run(["verus", "--version"], capture_output=True, text=True).stdout.strip()
+except Exception:
+    VERUS_ID = "?"
 VERUS_FLAGS = ["--multiple-errors", "200", "--rlimit", "40", "--output-json", "--time", "--error-format=json"]
 
 def all_units():
@@ -243,6 +247,17 @@ def run_verus(path, extra=None, rlimit=None):
     if rlimit:
         flags[flags.index("--rlimit") + 1] = str(rlimit)
     cmd = ["verus", os.path.basename(path)] + flags + (extra or [])
+    # the verdict for a byte-identical generated file is reused between the checks of different properties
+    # (same unit text + same flags + same verus binary => same obligations); VERIF_NOCACHE=1 disables this
+    key = hashlib.sha256((open(path).read() + "\0" + " ".join(cmd) + "\0" + VERUS_ID).encode()).hexdigest()[:24]
+    cpath = os.path.join(os.path.dirname(path), "verdict-%s.json" % key)
+    if os.environ.get("VERIF_NOCACHE") != "1" and os.path.exists(cpath):
+        try:
+            c = json.load(open(cpath))
+            c["cached"] = True
+            return c
+        except Exception:
+            pass
     t0 = time.time()
     r = subprocess.run(cmd, cwd=os.path.dirname(path), capture_output=True, text=True)
     wall = time.time() - t0
@@ -262,7 +277,15 @@ def run_verus(path, extra=None, rlimit=None):
                 raw.append(l)
         elif l:
             raw.append(l)
-    return {"cmd": " ".join(cmd), "rc": r.returncode, "summary": summary, "diags": diags, "raw": raw, "wall": wall}
+    out = {"cmd": " ".join(cmd), "rc": r.returncode, "summary": summary, "diags": diags, "raw": raw, "wall": wall, "cached": False}
+    try:
+        for fn in os.listdir(os.path.dirname(path)):
+            if fn.startswith("verdict-") and os.path.getmtime(os.path.join(os.path.dirname(path), fn)) < time.time() - 3600:
+                os.remove(os.path.join(os.path.dirname(path), fn))
+        json.dump(out, open(cpath, "w"))
+    except Exception:
+        pass
+    return out
 
 VERIF_KINDS = [
     ("postcondition not satisfied", "postcondition"),
